@@ -6,6 +6,7 @@ import TE.Model.Agg
 import TE.Spec.Agg
 namespace TE.AggL
 open TE TE.Agg
+open TE.Spec.Agg (wsum)
 
 /-! ### sums -/
 
@@ -586,6 +587,23 @@ theorem bce_sum (ln exp : Q → Q) (fl : Bool) : ∀ (xs ts ws : List Q),
 theorem baseline_eq (ln : Q → Q) (pos ex : Q) :
     bneBaseline ln pos ex = Spec.Agg.H ln (clampQ eps64 (1 - eps64) (pos / ex)) := by
   simp only [bneBaseline, Spec.Agg.H]; grind
+
+
+
+/-! ### PSNR / FAD helpers -/
+theorem psnrArg_val (s n r : Q) (hn : n ≠ 0) (hs : s ≠ 0) :
+    psnrArg s n (.val r) = .val (r * r / (s / n)) := by
+  have : s / n ≠ 0 := by grind
+  simp [psnrArg, xmul, xdivX, xdiv_val _ _ hn, xdiv_val _ _ this]
+
+theorem fadBatch_append (d : Nat) (A B : Mat) : fadAdd (fadBatch d A) (fadBatch d B) = fadBatch d (A ++ B) := by
+  simp only [fadAdd, fadBatch, zipWith_map_same]
+  refine congr (congr (congrArg FadS.mk (by simp)) ?_) ?_
+  · apply List.map_congr_left; intro j _
+    simp [col_append]
+  · apply List.map_congr_left; intro i _
+    apply List.map_congr_left; intro j _
+    rw [col_append, col_append, sum_zipWith_append _ _ _ _ _ (by simp [col_length])]
 
 
 end TE.AggL
